@@ -176,8 +176,9 @@ struct SeqEngine : Engine
     }
     uint64_t default_runs(std::string const &prop, int tier) const override
     {
-        if (prop == "C07") return tier ? 60000 : 1500;
-        return tier ? 1500000 : 30000;
+        if (prop == "C07") return tier ? 1200000 : 15000;
+        if (prop == "C04") return tier ? 7000000 : 120000;
+        return tier ? 16000000 : 250000;
     }
 };
 
